@@ -813,28 +813,32 @@ def run(ctx):
         cpu('MC')
     # ---- S2C -----------------------------------------------------------------------------------------
     if want('S2C'):
-        res = ctx.tlc('Gen_Numberify', ctx.pick('Gen_Numberify.cfg', 'Gen_Numberify_thorough.cfg'), leg='GEN')
         n = nroute = 0
         kinds = {}
-        nrq = ctx.pick(120, 2000)
-        cand = [i for i, p in enumerate(res.printed) if routable(p) and p['fmt']]
-        pick_rq = set(ctx.rng.sample(cand, min(nrq, len(cand))))
-        for i, p in enumerate(res.printed):
-            n += 1
-            nontrivial = bool(p['rows']) and any(cell['lots'] for row in p['rows'] for cell in row)
-            ctx.case(json.dumps([p['cols'], p['rows'], p['fmt']]), nontrivial)
-            kind = '+'.join(c['ty'] for c in p['cols'] if c['ty'] in AMT) + (':fmt' if p['fmt'] else '')
-            kinds[kind] = kinds.get(kind, 0) + 1
-            if n in (7, 4001) or (nontrivial and p['fmt'] and len(ctx.samples) < 2 and len(p['rows']) > 1):
-                ctx.sample({'leg': 'S2C', 'cols': p['cols'], 'rows': p['rows'], 'fmt': p['fmt'], 'q': p['q'],
-                            'acceptable_descriptions': p['descs'][:3], 'acceptable_cells': p['cells']})
-            s2c_direct(ctx, p, n)
-            ctx.traces += 1
-            if i in pick_rq:
-                r = s2c_run_query(ctx, p)
-                if r is not None:
+        cfgs = ctx.pick(['Gen_Numberify.cfg'], ['Gen_Numberify_thorough1.cfg', 'Gen_Numberify_thorough2.cfg'])
+        for cfg in cfgs:
+            res = ctx.tlc('Gen_Numberify', cfg, leg='GEN')
+            cases = res.printed
+            del res
+            cand = [i for i, p in enumerate(cases) if routable(p) and p['fmt']]
+            pick_rq = set(ctx.rng.sample(cand, min(ctx.pick(120, 1000), len(cand))))
+            for i, p in enumerate(cases):
+                n += 1
+                nontrivial = bool(p['rows']) and any(cell['lots'] for row in p['rows'] for cell in row)
+                ctx.case(json.dumps([p['cols'], p['rows'], p['fmt']]), nontrivial)
+                kind = '+'.join(c['ty'] for c in p['cols'] if c['ty'] in AMT) + (':fmt' if p['fmt'] else '')
+                kinds[kind] = kinds.get(kind, 0) + 1
+                if nontrivial and p['fmt'] and len(ctx.samples) < 2 and len(p['rows']) > 1 and n % 97 == 0:
+                    ctx.sample({'leg': 'S2C', 'cols': p['cols'], 'rows': p['rows'], 'fmt': p['fmt'], 'q': p['q'],
+                                'acceptable_descriptions': p['descs'][:3], 'acceptable_cells': p['cells']})
+                s2c_direct(ctx, p, n)
+                ctx.traces += 1
+                if i in pick_rq:
+                    s2c_run_query(ctx, p)
                     nroute += 1
                     ctx.traces += 1
+                cases[i] = None
+            del cases
         if n == 0:
             raise MachineryError('Gen_Numberify emitted nothing')
         ctx.leg('S2C', cases=n, by_kind=kinds, run_query_cases=nroute)
@@ -857,7 +861,7 @@ def run(ctx):
     # ---- C2S -----------------------------------------------------------------------------------------
     if want('C2S'):
         path = ctx.path('numberify_trace.ndjson')
-        nev, stats = record_c2s(ctx, path, ctx.pick(2000, 40000), ctx.pick(80, 1500))
+        nev, stats = record_c2s(ctx, path, ctx.pick(2000, 20000), ctx.pick(80, 800))
         with open(path) as f:
             for line in f:
                 ev = json.loads(line)
